@@ -59,6 +59,23 @@ var c05Check = register("C05", "c05.lossless", func(c *losslessCase) error {
 	if err != nil {
 		return err
 	}
+	// adjacent windows of one slab (cap > len): encoding one window must not disturb the next
+	{
+		n := len(c.Entropy)
+		slab := make([]byte, 3*n)
+		for i := range slab {
+			slab[i] = c.Entropy[i%n] ^ byte(i/n*0x5b)
+		}
+		pristine := append([]byte(nil), slab...)
+		for w := 0; w < 3; w++ {
+			if _, err := c05Decode(l, slab[w*n:(w+1)*n]); err != nil {
+				return err
+			}
+			if !bytes.Equal(slab, pristine) {
+				return failf(fmt.Sprintf("C05 window lang=%s size=%d", l, n), "encoding the %d-byte window %d of a larger buffer changed the buffer: %x -> %x (the next window no longer encodes its own entropy)", n, w, pristine, slab)
+			}
+		}
+	}
 	if !c.Flips {
 		return nil
 	}
